@@ -137,6 +137,23 @@ def run(ck):
                 ck.check(after == before, "C20.R4", inst + ":shapes unchanged", rsite, "parameter shapes change on reinitialisation")
                 sizes2 = {k: num_term(v) for k, v in s.inst.attrs.items() if k.startswith("num_")}
                 ck.check(sizes2 == sizes, "C20.R4", inst + ":sizes unchanged", rsite, "num_* attributes change on reinitialisation")
+                # values: the state was built with arbitrary ("trained") parameter values rbm_*.<name>; after reinitialisation no
+                # parameter may still depend on them - weights are fresh random draws, biases are zero as at construction
+                for n in nets:
+                    for pname, q in module_params(it, it.get_attr(s, n, None)):
+                        t = q.term
+                        old_dep = sorted(x for x in (t.syms() if t is not None else set()) if x.startswith("rbm_"))
+                        if t is None:
+                            ck.undecided("C20.R4", inst + ":%s.%s redrawn" % (n, pname), rsite, "value after reinitialisation unknown")
+                            continue
+                        ck.check(not old_dep, "C20.R4", inst + ":%s.%s redrawn [%s]" % (n, pname, path_tag(p)), rsite,
+                                 "after reinitialisation %s.%s still depends on its previous value (%s): the parameter is not redrawn" % (n, pname, ", ".join(old_dep)))
+                        if not old_dep:
+                            is_rng = any(isinstance(a, T.App) and a.op.startswith("rng_") for a in t.all_atoms())
+                            if "bias" in pname:
+                                ck.check(t.is_zero(), "C20.R4", inst + ":%s.%s is zero again [%s]" % (n, pname, path_tag(p)), rsite, "bias after reinitialisation is %r, expected 0" % (t,))
+                            else:
+                                ck.check(is_rng, "C20.R4", inst + ":%s.%s is a fresh random draw [%s]" % (n, pname, path_tag(p)), rsite, "weights after reinitialisation are %r, expected a new random draw" % (t,))
     for cls in ("ComplexWaveFunction", "DensityMatrix"):
         fsite = prog.method(cls, "fit").site()
         inst = cls + ".fit without bases"
